@@ -122,6 +122,11 @@ class Resolver:
     def from_def(self, d, depth, stack):
         if d.kind == "call":
             return self.call(d.data, depth, stack)
+        if d.kind == "mutcall":
+            t = d.data
+            f = t.get("f")
+            args = tuple(self.operand(a, depth, stack) for a in t["args"])
+            return ("call", "mut:" + (f["path"] if f else "<indirect>"), args)
         return self.rvalue(d.data["r"], depth, stack)
 
     def operand(self, o, depth=0, stack=()):
